@@ -2,6 +2,8 @@
 // (read through -fno-access-control). Raw bytes of every vector / matrix / flag; pointer roles, never addresses.
 #pragma once
 #include "common.hpp"
+#include <memory>
+#include <type_traits>
 #include "SplineTrajectory.hpp"
 
 namespace vf {
@@ -16,31 +18,46 @@ struct Canon {
   template <class M> void mat(const M &m) { i(m.rows()); i(m.cols()); if (m.size()) raw(m.data(), sizeof(double) * (size_t)m.size()); }
   void vec(const std::vector<double> &v) { i((long)v.size()); if (!v.empty()) raw(v.data(), sizeof(double) * v.size()); }
   template <class T> void podvec(const std::vector<T> &v) { i((long)v.size()); if (!v.empty()) raw(v.data(), sizeof(T) * v.size()); }
+  // type-directed: the private members are read through this, so that a refactoring that changes a member's TYPE (vector -> shared_ptr<vector>,
+  // double -> float, ...) still compiles and is keyed by VALUE (pointees, never addresses)
+  template <class T> void any(const T &x) {
+    if constexpr (std::is_base_of<Eigen::EigenBase<T>, T>::value) mat(x);
+    else if constexpr (std::is_arithmetic<T>::value || std::is_enum<T>::value) { double v = (double)x; raw(&v, sizeof v); }
+    else if constexpr (is_vector<T>::value) { i((long)x.size()); for (const auto &e : x) any(e); }
+    else if constexpr (is_smart_ptr<T>::value) { i(x ? 1 : 0); if (x) any(*x); }
+    else if constexpr (std::is_trivially_copyable<T>::value) raw(&x, sizeof x);
+    else static_assert(sizeof(T) == 0, "Canon::any: unsupported member type");
+  }
+  template <class T> struct is_vector : std::false_type {};
+  template <class T, class A> struct is_vector<std::vector<T, A>> : std::true_type {};
+  template <class T> struct is_smart_ptr : std::false_type {};
+  template <class T> struct is_smart_ptr<std::shared_ptr<T>> : std::true_type {};
+  template <class T, class Dl> struct is_smart_ptr<std::unique_ptr<T, Dl>> : std::true_type {};
 };
 
 template <int DIM, int ORDER> void canon_add(Canon &c, const PPolyND<DIM, ORDER> &p) {
-  c.tag("PP"); c.vec(p.breakpoints_); c.mat(p.coefficients_);
-  c.i((long)p.derivative_coeffs_.size()); for (auto &m : p.derivative_coeffs_) c.mat(m);
-  c.mat(p.derivative_factor_table_); c.i(p.derivative_factor_table_ready_); c.i(p.derivative_coeffs_ready_);
-  c.i(p.num_segments_); c.i(p.num_coeffs_); c.i(p.is_initialized_);
+  c.tag("PP"); c.any(p.breakpoints_); c.any(p.coefficients_);
+  c.any(p.derivative_coeffs_);
+  c.any(p.derivative_factor_table_); c.any(p.derivative_factor_table_ready_); c.any(p.derivative_coeffs_ready_);
+  c.any(p.num_segments_); c.any(p.num_coeffs_); c.any(p.is_initialized_);
 }
 template <int DIM> void canon_add(Canon &c, const BoundaryConditions<DIM> &b) {
   c.mat(b.start_velocity); c.mat(b.start_acceleration); c.mat(b.start_jerk); c.mat(b.end_velocity); c.mat(b.end_acceleration); c.mat(b.end_jerk);
 }
 template <int DIM> void canon_add(Canon &c, const CubicSplineND<DIM> &s) {
-  c.tag("CS"); c.vec(s.time_segments_); c.mat(s.spatial_points_); canon_add(c, s.boundary_velocities_); c.i(s.num_segments_); c.mat(s.coeffs_);
-  c.i(s.is_initialized_); c.d(s.start_time_); c.vec(s.cumulative_times_); canon_add(c, s.trajectory_);
-  c.mat(s.internal_derivatives_); c.mat(s.point_diffs_); c.mat(s.cached_c_prime_); c.mat(s.cached_inv_denoms_); c.mat(s.ws_lambda_); c.podvec(s.time_powers_);
+  c.tag("CS"); c.any(s.time_segments_); c.any(s.spatial_points_); canon_add(c, s.boundary_velocities_); c.any(s.num_segments_); c.any(s.coeffs_);
+  c.any(s.is_initialized_); c.any(s.start_time_); c.any(s.cumulative_times_); canon_add(c, s.trajectory_);
+  c.any(s.internal_derivatives_); c.any(s.point_diffs_); c.any(s.cached_c_prime_); c.any(s.cached_inv_denoms_); c.any(s.ws_lambda_); c.any(s.time_powers_);
 }
 template <class S> void canon_add_blocksolver(Canon &c, const S &s) {
-  c.vec(s.time_segments_); c.vec(s.cumulative_times_); c.d(s.start_time_); c.mat(s.spatial_points_); c.mat(s.point_diffs_); canon_add(c, s.boundary_);
-  c.i(s.num_segments_); c.i(s.is_initialized_); c.mat(s.coeffs_); canon_add(c, s.trajectory_);
-  c.mat(s.D_inv_cache_); c.mat(s.U_blocks_cache_); c.mat(s.L_blocks_cache_); c.mat(s.D_inv_T_mul_L_next_T_cache_);
-  c.mat(s.internal_vel_); c.mat(s.internal_acc_); c.podvec(s.time_powers_);
-  c.mat(s.ws_rhs_mod_); c.mat(s.ws_solution_); c.mat(s.ws_lambda_); c.mat(s.ws_gd_internal_);
+  c.any(s.time_segments_); c.any(s.cumulative_times_); c.any(s.start_time_); c.any(s.spatial_points_); c.any(s.point_diffs_); canon_add(c, s.boundary_);
+  c.any(s.num_segments_); c.any(s.is_initialized_); c.any(s.coeffs_); canon_add(c, s.trajectory_);
+  c.any(s.D_inv_cache_); c.any(s.U_blocks_cache_); c.any(s.L_blocks_cache_); c.any(s.D_inv_T_mul_L_next_T_cache_);
+  c.any(s.internal_vel_); c.any(s.internal_acc_); c.any(s.time_powers_);
+  c.any(s.ws_rhs_mod_); c.any(s.ws_solution_); c.any(s.ws_lambda_); c.any(s.ws_gd_internal_);
 }
 template <int DIM> void canon_add(Canon &c, const QuinticSplineND<DIM> &s) { c.tag("QS"); canon_add_blocksolver(c, s); }
-template <int DIM> void canon_add(Canon &c, const SepticSplineND<DIM> &s) { c.tag("SS"); canon_add_blocksolver(c, s); c.mat(s.internal_jerk_); }
+template <int DIM> void canon_add(Canon &c, const SepticSplineND<DIM> &s) { c.tag("SS"); canon_add_blocksolver(c, s); c.any(s.internal_jerk_); }
 
 template <class T> std::string canon_of(const T &x) { Canon c; canon_add(c, x); return c.s; }
 
@@ -54,15 +71,15 @@ template <int ORD, class G> void canon_add_grads(Canon &c, const G &g) {
   if constexpr (ORD >= 7) { c.mat(g.start.j); c.mat(g.end.j); }
 }
 template <class WS> void canon_add_ws(Canon &c, const WS &w) {
-  c.tag("WS"); canon_add(c, w.spline); c.vec(w.cache_times); c.mat(w.cache_waypoints); c.mat(w.cache_gdT); c.mat(w.cache_gdC); c.mat(w.user_gdT_buffer);
+  c.tag("WS"); canon_add(c, w.spline); c.any(w.cache_times); c.any(w.cache_waypoints); c.any(w.cache_gdT); c.any(w.cache_gdC); c.any(w.user_gdT_buffer);
   constexpr int ORD = std::decay<decltype(w.spline)>::type::ORDER; canon_add_grads<ORD>(c, w.grads); canon_add_grads<ORD>(c, w.energy_grads);
-  c.mat(w.explicit_time_grad_buffer); c.mat(w.discrete_grad_q_buffer); c.vec(w.segment_start_times); c.vec(w.segment_costs);
+  c.any(w.explicit_time_grad_buffer); c.any(w.discrete_grad_q_buffer); c.any(w.segment_start_times); c.any(w.segment_costs);
 }
 // optimizer: all private members; pointers only by ROLE (own default map / a user map / null), never by address
 template <class Opt> void canon_add_opt(Canon &c, const Opt &o, bool with_ws_contents) {
-  c.tag("OPT"); c.vec(o.ref_times_); c.mat(o.ref_waypoints_); canon_add(c, o.ref_bc_); c.d(o.start_time_);
+  c.tag("OPT"); c.any(o.ref_times_); c.any(o.ref_waypoints_); canon_add(c, o.ref_bc_); c.any(o.start_time_);
   c.i(o.flags_.start_p | o.flags_.start_v << 1 | o.flags_.start_a << 2 | o.flags_.start_j << 3 | o.flags_.end_p << 4 | o.flags_.end_v << 5 | o.flags_.end_a << 6 | o.flags_.end_j << 7);
-  c.i(o.num_segments_); c.i(o.is_valid_); c.d(o.rho_energy_); c.i(o.integral_num_steps_);
+  c.any(o.num_segments_); c.any(o.is_valid_); c.any(o.rho_energy_); c.any(o.integral_num_steps_);
   c.i(o.active_time_map_ == &o.default_time_map_ ? 0 : o.active_time_map_ == nullptr ? 2 : 1);
   c.i(o.active_spatial_map_ == &o.default_spatial_map_ ? 0 : o.active_spatial_map_ == nullptr ? 2 : 1);
   c.i(o.internal_ws_ ? 1 : 0); if (o.internal_ws_ && with_ws_contents) canon_add_ws(c, *o.internal_ws_);
